@@ -79,38 +79,55 @@ Theorem C02_cleaners :
 Proof. split; [exact cleaners_static|exact cleaners_post_names]. Qed.
 Print Assumptions C02_cleaners.
 
-(* (7) tid mapping (tid_mapping.py::map_tid_to_range, model TidMap.v): with the pre-configured range of 30 entries - or
-   any non-empty one - the stage raises for NO stream of thread ids, however many distinct ones a run has (before the
-   repair the 31st distinct tid of a run raised IndexError: 8 rank files with 4 threads each) *)
+(* (7) tid mapping (tid_mapping.py::map_tid_to_range, model TidMap.v; a slice is (device?, tid)): with the pre-configured
+   range of 30 entries - or any non-empty one - the stage raises for NO stream of thread ids, however many distinct ones a
+   run has (before the repair the 31st distinct tid of a run raised IndexError: 8 rank files with 4 threads each) *)
 Theorem C02_tid_mapping_total :
-  forall (size : nat) (start step : Z) (tids : list Z),
+  forall (size : nat) (start step : Z) (tids : list (bool * Z)),
     (0 < size)%nat -> tidmap_val size start step tids <> None.
 Proof. exact tidmap_total. Qed.
 Print Assumptions C02_tid_mapping_total.
 
-(* (8) ... and the numbers it hands out: the i-th distinct tid in order of first appearance gets start + i*step (also
+(* (8) ... and the numbers it hands out: the tid at place i of the list of first appearances gets start + i*step (also
    beyond the pre-configured range), so equal tids share a lane and - for step <> 0 - different tids never do *)
 Theorem C02_tid_mapping_closed_form :
-  forall (size : nat) (start step : Z) (tids : list Z) (s' : tstate) (vs : list Z),
+  forall (size : nat) (start step : Z) (tids : list (bool * Z)) (s' : tstate) (vs : list Z),
     (0 < size)%nat -> t_run step (t_init size start step) tids = Some (s', vs) ->
-    NoDup (t_orig s') /\ (forall t, In t tids -> In t (t_orig s')) /\
-    Forall2 (fun t v => exists i, index_of t (t_orig s') = Some i /\ v = (start + Z.of_nat i * step)%Z) tids vs.
+    NoDup (t_orig s') /\ (forall t, In t tids -> In (Some (snd t)) (t_orig s')) /\
+    Forall2 (fun t v => exists i, index_of (snd t) (t_orig s') = Some i /\ v = (start + Z.of_nat i * step)%Z) tids vs.
 Proof. exact tidmap_closed_form. Qed.
 Print Assumptions C02_tid_mapping_closed_form.
 
 Theorem C02_tid_mapping_injective :
-  forall (size : nat) (start step : Z) (tids vs : list Z) (i j : nat) (t t' v v' : Z),
+  forall (size : nat) (start step : Z) (tids : list (bool * Z)) (vs : list Z) (i j : nat) (t t' : bool * Z) (v v' : Z),
     (0 < size)%nat -> tidmap_val size start step tids = Some vs ->
     nth_error tids i = Some t -> nth_error tids j = Some t' ->
     nth_error vs i = Some v -> nth_error vs j = Some v' ->
-    (t = t' -> v = v') /\ (step <> 0%Z -> v = v' -> t = t').
+    (snd t = snd t' -> v = v') /\ (step <> 0%Z -> v = v' -> snd t = snd t').
 Proof. exact tidmap_injective. Qed.
 Print Assumptions C02_tid_mapping_injective.
 
-(* non-vacuity: 33 distinct tids through the shipped configuration (30, 1000, 100): the 31st..33rd get 4000, 4100, 4200 *)
+(* (9) the first number of the range is the lane the host slices of a rank are merged onto (cpu_stream_tid = remap_start):
+   it is handed out only to the tid of the very first slice of the run, and only if that is a host slice - a device
+   stream that shows up first does not take it (before the repair it did, and overlap resolution then treated the device
+   stream and the merged host lane as one lane: host slices dropped under -O drop because of kernels) *)
+Theorem C02_tid_mapping_first_number :
+  forall (size : nat) (start step : Z) (tids : list (bool * Z)) (vs : list Z) (i : nat) (t : bool * Z) (v : Z),
+    (0 < size)%nat -> step <> 0%Z -> tidmap_val size start step tids = Some vs ->
+    nth_error tids i = Some t -> nth_error vs i = Some v -> v = start ->
+    exists t0 r, tids = (t0 :: r)%list /\ fst t0 = false /\ snd t0 = snd t.
+Proof. exact tidmap_first_number. Qed.
+Print Assumptions C02_tid_mapping_first_number.
+
+(* non-vacuity: 33 distinct host tids through the shipped configuration (30, 1000, 100): the 31st..33rd get 4000, 4100,
+   4200; and a run whose first slice is a device slice: that stream gets 1100, nobody gets 1000 *)
 Example C02_tid_mapping_beyond_range :
-  tidmap_val 30 1000 100 (map Z.of_nat (seq 500 33) ++ [Z.of_nat 500; Z.of_nat 532])%list
+  tidmap_val 30 1000 100 (map (fun n => (false, Z.of_nat n)) (seq 500 33) ++ [(false, Z.of_nat 500); (true, Z.of_nat 532)])%list
   = Some (map (fun i => (1000 + Z.of_nat i * 100)%Z) (seq 0 33) ++ [1000; 4200]%Z)%list.
+Proof. vm_compute. reflexivity. Qed.
+
+Example C02_tid_mapping_device_first :
+  tidmap_val 30 1000 100 [(true, 777); (false, 11); (true, 777); (false, 12)]%Z = Some [1100; 1200; 1100; 1300]%Z.
 Proof. vm_compute. reflexivity. Qed.
 
 (* non-vacuity of (3) and of te_valid *)
